@@ -1,79 +1,211 @@
 /-
 C19 (partial) — command-line tool: which files a run reads and which files it writes.
 Property theorems only.  Model: `Kanzi/Model/CliPaths.lean` (`plan` = `app.BlockCompressor.Compress`
-/ `app.BlockDecompressor.Decompress` up to the creation of the file tasks, `createFileList` =
-`internal.CreateFileList`, `clean` / `walkPath` = `filepath.Clean` / the names `filepath.Walk`
-reports).  Proofs: `Kanzi/Proofs/CliPaths.lean`.  Tie to /repo: the `clipath` stream runs the real
-binary on trees with adversarial names and compares refusal class, printed (input, output) names,
-new files and exit status with the model (harness/cmd/kv/clipath.go).
+/ `app.BlockDecompressor.Decompress` up to the creation of the file tasks, with
+`relativeToInputDir` (`filepath.Rel`, fallback `filepath.Base`), the pre-flight `checkOutputNames`
+of the multi-file branch and `fileOutputName`; `createFileList` = `internal.CreateFileList`;
+`clean` / `walkPath` = `filepath.Clean` / the names `filepath.Walk` reports).
+Proofs: `Kanzi/Proofs/CliPaths*.lean`.  Tie to /repo: the `clipath` stream runs the real binary on
+trees with adversarial names and compares refusal class, printed (input, output) names, new files
+and exit status with the model (harness/cmd/kv/clipath.go).
 
-Strings are byte lists.  The file system enters through oracles (`FS`): the theorems assume about
+Strings are byte lists.  The file system enters through oracles (`FS`); the theorems assume about
 them only what is written in their hypotheses:
   `DirInput fs a`   both `Stat` calls on the `-i` argument say "directory";
   `TreeOK l`        the directory walk reports every entry once, under directory entry names
                     (not empty, not `.`, not `..`, no `/`);
-  `KnzTree l`       (decompression) every name is `<directory entry name>.knz`: what compression writes;
-  `SpecOK inp`      the `-i` argument is `/`, or `B` or `B/` where `B` is its own `filepath.Clean`, is
-                    not `.` and does not end with a dot;  `isNonRec inp`: it is `X/.` (not recursive).
-`SpecOK` is NOT implied by what the tool accepts: for `./T`, `T//`, `T/../T`, `.` the tool computes
-`iName[len(formattedInName):]` on names that `filepath.Walk` has cleaned, so with `-o <dir>` output
-names lose leading characters, collide, or the slice faults (examples at the end; finding).
-  `NoShadow l`      no entry is named like another entry followed by `.knz`;
-  `OutApart a l`    no entry of the input tree lies below the output directory.
-Without `NoShadow` a run in place writes (with -f) or refuses to write (without) a file that is
-an input of the same run: the tool checks "output == input" per task only (example; finding).
+  `KnzTree l`       (decompression) every name is `<directory entry name>.knz`: what compression writes.
+EVERY spelling of `-i` is covered (`./T`, `T//`, `T/../T`, `.`, `..`, `X/..`, a directory called
+`T.`, absolute, `X/.`), in place and with `-o <dir>`, with NO hypothesis on the spelling: the former
+residual hypothesis `FinOK inp` ("`formattedInName` still names the listed directory") is proved
+for every non-empty `-i` (`C19_paths_formatted_input_ok`) since the tool drops the trailing dot of
+the `-i` string only in `X/.` (repair f45672a of finding P5).
+`NoShadow` / `OutApart` are no longer hypotheses of the safety theorems: a run whose names clash is
+refused (status 7) before any file is opened (`C19_paths_dichotomy`, `C19_paths_refusal_real`), a
+run that is not refused has distinct outputs none of which is an input (`C19_paths_checked`,
+`C19_paths_output_not_input`).  They remain as hypotheses of `C19_paths_no_spurious_refusal`:
+trees without such names are never refused.
 -/
 import Kanzi.Model.CliPaths
-import Kanzi.Proofs.CliPaths
-import Kanzi.Proofs.CliPathsClean
+import Kanzi.Proofs.CliPathsThm
 
 namespace Kanzi.C19
 open Kanzi.CliPaths
 
-/-- Compression of a directory (in place or with `-o <dir>`): two distinct input files of one run
-never get the same output path (and the input paths themselves are distinct). -/
+/-! ### the pre-flight check: dichotomy -/
+
+/-- The outputs of a run that is not refused are pairwise distinct: no hypothesis on the tree,
+the names or the spelling (several files: `checkOutputNames`; one file: trivial). -/
+theorem C19_paths_outputs_distinct (fs : FS) (a : Args) (ts : List (Str × Str))
+    (h : plan fs a = .tasks ts) (hsp : isSpecial a.out = false) : (ts.map (·.2)).Nodup :=
+  plan_outputs_nodup fs a ts h hsp
+
+/-- A run on several files that is not refused has passed the check: after `filepath.Clean` no
+output equals an input of the run, and no two outputs are equal. -/
+theorem C19_paths_checked (fs : FS) (a : Args) (ts : List (Str × Str)) (h : plan fs a = .tasks ts)
+    (hsp : isSpecial a.out = false) (hlen : ts.length ≠ 1) :
+    (∀ t ∈ ts, ∀ u ∈ ts, clean t.2 ≠ clean u.1) ∧ (ts.map fun t => clean t.2).Nodup := by
+  have hc := plan_checked fs a ts h hsp hlen
+  exact ⟨fun t ht u hu e => hc (Or.inl ⟨t, ht, u, hu, e⟩), Decidable.of_not_not (fun hn => hc (Or.inr hn))⟩
+
+/-- DICHOTOMY.  Let `N` be the (input, output) names the tool computes (`planUnchecked`: the tool
+without its check) for several files and a real output.  Either the names clash (`Clash N`: an
+output is an input, or two outputs coincide) and the run is refused with status 7 — `Plan.err`:
+before any file is opened — or they do not clash and exactly these tasks are run. -/
+theorem C19_paths_dichotomy (fs : FS) (a : Args) (N : List (Str × Str))
+    (h : planUnchecked fs a = .tasks N) (hsp : isSpecial a.out = false) (hlen : N.length ≠ 1) :
+    (Clash N ∧ plan fs a = .err ERR_OVERWRITE_FILE) ∨ (¬ Clash N ∧ plan fs a = .tasks N) :=
+  plan_dichotomy fs a N h hsp hlen
+
+/-- A refusal with status 7 is never spurious: the names do clash. -/
+theorem C19_paths_refusal_real (fs : FS) (a : Args) (h : plan fs a = .err ERR_OVERWRITE_FILE) :
+    ∃ N, planUnchecked fs a = .tasks N ∧ N.length ≠ 1 ∧ isSpecial a.out = false ∧ Clash N :=
+  plan_refusal_real fs a h
+
+/-- Trees of directory entry names without shadowing names (in place) / apart from the output
+directory (`-o`) are never refused: the check changes nothing for them. -/
+theorem C19_paths_no_spurious_refusal (fs : FS) (a : Args)
+    (hc : a.decomp = false) (hsp : isSpecial a.out = false) (hd : DirInput fs a)
+    (ht : TreeOK (fs.tree (rootOf a.inp)))
+    (hin : a.out = [] → NoShadow (fs.tree (rootOf a.inp)))
+    (hout : a.out ≠ [] → OutApart a (fs.tree (rootOf a.inp))) :
+    plan fs a = planUnchecked fs a :=
+  no_spurious_refusal fs a (fun N hN =>
+    no_clash_c _ fs a N hc hsp hd (fun _ => finOK_of_tasks _ fs a N hN) ht hin hout hN)
+
+theorem C19_paths_no_spurious_refusal_decompress (fs : FS) (a : Args)
+    (hc : a.decomp = true) (hsp : isSpecial a.out = false) (hd : DirInput fs a)
+    (hnd : ((fs.tree (rootOf a.inp)).map (·.1)).Nodup) (hk : KnzTree (fs.tree (rootOf a.inp)))
+    (hin : a.out = [] → NoShadow (fs.tree (rootOf a.inp)))
+    (hout : a.out ≠ [] → OutApart a (fs.tree (rootOf a.inp))) :
+    plan fs a = planUnchecked fs a :=
+  no_spurious_refusal fs a (fun N hN =>
+    no_clash_d _ fs a N hc hsp hd (fun _ => finOK_of_tasks _ fs a N hN) hnd hk hin hout hN)
+
+/-! ### injectivity -/
+
+/-- Compression of a directory, in place or with `-o <dir>`, for every spelling of `-i`: two
+distinct input files never get the same output path — not even after `filepath.Clean` — and the
+input paths are distinct. -/
 theorem C19_paths_injective (fs : FS) (a : Args) (ts : List (Str × Str))
     (hc : a.decomp = false) (hsp : isSpecial a.out = false) (hd : DirInput fs a)
-    (hs : SpecOK a.inp ∨ isNonRec a.inp = true) (ht : TreeOK (fs.tree (rootOf a.inp)))
+    (ht : TreeOK (fs.tree (rootOf a.inp)))
     (h : plan fs a = .tasks ts) :
-    (ts.map (·.1)).Nodup ∧ (ts.map (·.2)).Nodup :=
-  paths_injective_c fs a ts hc hsp hd hs ht h
+    (ts.map (·.1)).Nodup ∧ (ts.map (·.2)).Nodup ∧ (ts.map fun t => clean t.2).Nodup := by
+  have := paths_injective_c _ fs a ts hc hsp hd (fun _ => finOK_of_tasks _ fs a ts h) ht h
+  exact ⟨this.1, this.2.1, this.2.2.1⟩
 
-/-- Decompression of a directory whose entries are all named `<name>.knz`: distinct outputs.
-(Without `KnzTree` false: `a.knz` and `a.KNZ`, or `a` and `a.bak.knz`, share an output; see below.) -/
 theorem C19_paths_injective_decompress (fs : FS) (a : Args) (ts : List (Str × Str))
     (hc : a.decomp = true) (hsp : isSpecial a.out = false) (hd : DirInput fs a)
-    (hs : SpecOK a.inp ∨ isNonRec a.inp = true)
     (hnd : ((fs.tree (rootOf a.inp)).map (·.1)).Nodup) (hk : KnzTree (fs.tree (rootOf a.inp)))
     (h : plan fs a = .tasks ts) :
-    (ts.map (·.1)).Nodup ∧ (ts.map (·.2)).Nodup :=
-  paths_injective_d fs a ts hc hsp hd hs hnd hk h
+    (ts.map (·.1)).Nodup ∧ (ts.map (·.2)).Nodup ∧ (ts.map fun t => clean t.2).Nodup := by
+  have := paths_injective_d _ fs a ts hc hsp hd (fun _ => finOK_of_tasks _ fs a ts h) hnd hk h
+  exact ⟨this.1, this.2.1, this.2.2.1⟩
 
-/-- In place (no `-o`) the spelling of `-i` does not matter: for EVERY `-i` string the inputs are
-distinct and the outputs are distinct (the offending slice `iName[len(formattedInName):]` is not
-evaluated in place). -/
+/-- In place no hypothesis on the spelling at all. -/
 theorem C19_paths_injective_inplace (fs : FS) (a : Args) (ts : List (Str × Str))
     (hc : a.decomp = false) (ho : a.out = []) (hd : DirInput fs a)
     (ht : TreeOK (fs.tree (rootOf a.inp))) (h : plan fs a = .tasks ts) :
-    (ts.map (·.1)).Nodup ∧ (ts.map (·.2)).Nodup :=
-  paths_injective_inplace_c fs a ts hc ho hd ht h
+    (ts.map (·.1)).Nodup ∧ (ts.map (·.2)).Nodup := by
+  have := paths_injective_c _ fs a ts hc (by rw [ho]; decide) hd (fun hne => absurd ho hne) ht h
+  exact ⟨this.1, this.2.1⟩
 
 theorem C19_paths_injective_inplace_decompress (fs : FS) (a : Args) (ts : List (Str × Str))
     (hc : a.decomp = true) (ho : a.out = []) (hd : DirInput fs a)
     (hnd : ((fs.tree (rootOf a.inp)).map (·.1)).Nodup) (hk : KnzTree (fs.tree (rootOf a.inp)))
     (h : plan fs a = .tasks ts) : (ts.map (·.2)).Nodup :=
-  paths_injective_inplace_d fs a ts hc ho hd hnd hk h
+  (paths_injective_d _ fs a ts hc (by rw [ho]; decide) hd (fun hne => absurd ho hne) hnd hk h).2.1
 
-/-- In place, for every `-i` string: no output is an input of the run, provided no entry of the
-tree is named like another entry followed by `.knz`. -/
+/-! ### no output is an input -/
+
+/-- No task writes a path that is an input path of the run — its own or another task's, compared
+after `filepath.Clean` — whatever the names in the tree (no `NoShadow`, no `OutApart`): clashing
+runs are refused, see the dichotomy. -/
+theorem C19_paths_output_not_input (fs : FS) (a : Args) (ts : List (Str × Str))
+    (hc : a.decomp = false) (hsp : isSpecial a.out = false) (hd : DirInput fs a)
+    (ht : TreeOK (fs.tree (rootOf a.inp)))
+    (h : plan fs a = .tasks ts) : ∀ t ∈ ts, ∀ u ∈ ts, clean t.2 ≠ clean u.1 :=
+  output_not_input_of fs a ts hsp h (paths_injective_c _ fs a ts hc hsp hd (fun _ => finOK_of_tasks _ fs a ts h) ht h).2.2.2
+
+theorem C19_paths_output_not_input_decompress (fs : FS) (a : Args) (ts : List (Str × Str))
+    (hc : a.decomp = true) (hsp : isSpecial a.out = false) (hd : DirInput fs a)
+    (hnd : ((fs.tree (rootOf a.inp)).map (·.1)).Nodup) (hk : KnzTree (fs.tree (rootOf a.inp)))
+    (h : plan fs a = .tasks ts) : ∀ t ∈ ts, ∀ u ∈ ts, clean t.2 ≠ clean u.1 :=
+  output_not_input_of fs a ts hsp h (paths_injective_d _ fs a ts hc hsp hd (fun _ => finOK_of_tasks _ fs a ts h) hnd hk h).2.2.2
+
 theorem C19_paths_output_not_input_inplace (fs : FS) (a : Args) (ts : List (Str × Str))
     (hc : a.decomp = false) (ho : a.out = []) (hd : DirInput fs a)
-    (ht : TreeOK (fs.tree (rootOf a.inp))) (hin : NoShadow (fs.tree (rootOf a.inp)))
-    (h : plan fs a = .tasks ts) : ∀ t ∈ ts, ∀ u ∈ ts, t.2 ≠ u.1 :=
-  paths_output_not_input_inplace_c fs a ts hc ho hd ht hin h
+    (ht : TreeOK (fs.tree (rootOf a.inp))) (h : plan fs a = .tasks ts) :
+    ∀ t ∈ ts, ∀ u ∈ ts, clean t.2 ≠ clean u.1 :=
+  C19_paths_output_not_input fs a ts hc (by rw [ho]; decide) hd ht h
 
-/-- The model of `filepath.Clean` is idempotent, and the names the directory walk reports
-(iterated `filepath.Join`) determine the relative path for every root. -/
+/-! ### inside the output directory -/
+
+/-- With `-o <dir>` every output path is `<dir>/` followed by a relative path made of directory
+entry names (no `..`, no empty or absolute component), for every spelling of `-i`. -/
+theorem C19_paths_within_outdir (fs : FS) (a : Args) (ts : List (Str × Str))
+    (hc : a.decomp = false) (hsp : isSpecial a.out = false) (ho : a.out ≠ []) (hd : DirInput fs a)
+    (ht : TreeOK (fs.tree (rootOf a.inp)))
+    (h : plan fs a = .tasks ts) : ∀ t ∈ ts, Under (foutOf a.out) t.2 :=
+  within_outdir_c _ fs a ts hc hsp ho hd (finOK_of_tasks _ fs a ts h) ht h
+
+theorem C19_paths_within_outdir_decompress (fs : FS) (a : Args) (ts : List (Str × Str))
+    (hc : a.decomp = true) (hsp : isSpecial a.out = false) (ho : a.out ≠ []) (hd : DirInput fs a)
+    (hk : KnzTree (fs.tree (rootOf a.inp)))
+    (h : plan fs a = .tasks ts) : ∀ t ∈ ts, Under (foutOf a.out) t.2 :=
+  within_outdir_d _ fs a ts hc hsp ho hd (finOK_of_tasks _ fs a ts h) hk h
+
+/-! ### round trip of the names -/
+
+/-- Stripping undoes appending, for EVERY byte string. -/
+theorem C19_paths_roundtrip_names (p : Str) : dName (cName p) = p := dName_cName p
+
+/-- In place: the decompressor maps the name the compressor wrote back to the input name (when
+that name does not read as `none` / `stdout`: then it is written as `./name`, the same file). -/
+theorem C19_paths_roundtrip_inplace (isDir sp : Bool) (fin i : Str) (h : isSpecial i = false) :
+    oName false isDir sp fin [] i = i ++ KNZ ∧ oName true isDir sp fin [] (i ++ KNZ) = i :=
+  paths_roundtrip_inplace isDir sp fin i h
+
+/-- Tree `inT` compressed into directory `oC`, then `inC` — the same directory, spelled in any
+way (`hsame`) — decompressed into `oD`: for the entry `init/last` the compressor writes
+`oC/init/last.knz`; that is, after `filepath.Clean`, the name under which the decompressor finds
+it; and the decompressor writes `oD/init/last`: the relative path is preserved. -/
+theorem C19_paths_roundtrip (inT oC inC oD : Str) (init : List Str) (last : Str)
+    (hv : ∀ n ∈ init ++ [last], ValidName n) (hT : inT ≠ []) (hC : inC ≠ [])
+    (hoC : oC ≠ []) (hoD : oD ≠ [])
+    (hsame : stackOf (foutOf oC) = stackOf (rootOf inC) ∧ isRooted (foutOf oC) = isRooted (rootOf inC)) :
+    oName false true false (finOf inT) (foutOf oC) (pathOf inT (init ++ [last]))
+        = foutOf oC ++ joinSep (init ++ [last ++ KNZ]) ∧
+    clean (foutOf oC ++ joinSep (init ++ [last ++ KNZ])) = clean (pathOf inC (init ++ [last ++ KNZ])) ∧
+    oName true true false (finOf inC) (foutOf oD) (pathOf inC (init ++ [last ++ KNZ]))
+        = foutOf oD ++ joinSep (init ++ [last]) :=
+  paths_roundtrip inT oC inC oD init last hv hT hC (finOK_all inT hT) (finOK_all inC hC) hoC hoD hsame
+
+/-- For every non-empty `-i` string `formattedInName` names the directory that is listed (same
+component stack after `filepath.Clean`, same rootedness); they are even the same string, except
+for `-i /.`. -/
+theorem C19_paths_formatted_input_ok (inp : Str) (hi : inp ≠ []) :
+    FinOK inp ∧ (finOf inp = rootOf inp ∨ inp = [SEP, DOT]) :=
+  ⟨finOK_all inp hi, finOf_eq_rootOf inp hi⟩
+
+/-! ### special outputs, single file, `filepath.Clean` -/
+
+/-- An output name the tool derives from an input file name (no `-o`, or below the `-o`
+directory) is never interpreted as `NONE` / `STDOUT` by the file task. -/
+theorem C19_paths_no_special_output (fs : FS) (a : Args) (ts : List (Str × Str))
+    (h : plan fs a = .tasks ts)
+    (hder : a.out = [] ∨ (isSpecial a.out = false ∧ ∃ n, fs.stat a.inp = some (.dir, n))) :
+    ∀ t ∈ ts, isSpecial t.2 = false :=
+  no_special_output _ fs a ts h hder
+
+/-- A regular file as input: one task, reading that file, writing `-o` when given, else the
+mapped name. -/
+theorem C19_paths_file (fs : FS) (a : Args) (ts : List (Str × Str)) (hf : FileInput fs a)
+    (h : plan fs a = .tasks ts) :
+    ts = [(targetOf a.inp, oName a.decomp false (isSpecial a.out) [] a.out (targetOf a.inp))] :=
+  plan_file _ fs a ts hf h
+
 theorem C19_clean_idempotent (p : Str) : clean (clean p) = clean p := clean_idem p
 
 theorem C19_walk_names_injective (root : Str) (r1 r2 : List Str) (hp : root ≠ []) (h1 : r1 ≠ [])
@@ -81,89 +213,34 @@ theorem C19_walk_names_injective (root : Str) (r1 r2 : List Str) (hp : root ≠ 
     (h : walkPath root r1 = walkPath root r2) : r1 = r2 :=
   walkPath_inj root r1 r2 hp h1 h2 v1 v2 h
 
-/-- No task writes a path that is an input path of the run (its own or another task's):
-in place when no entry shadows the compressed name of another one, with `-o <dir>` when the
-input tree has nothing below the output directory. -/
-theorem C19_paths_output_not_input (fs : FS) (a : Args) (ts : List (Str × Str))
-    (hc : a.decomp = false) (hsp : isSpecial a.out = false) (hd : DirInput fs a)
-    (hs : SpecOK a.inp ∨ isNonRec a.inp = true) (ht : TreeOK (fs.tree (rootOf a.inp)))
-    (hin : a.out = [] → NoShadow (fs.tree (rootOf a.inp)))
-    (hout : a.out ≠ [] → OutApart a (fs.tree (rootOf a.inp)))
-    (h : plan fs a = .tasks ts) : ∀ t ∈ ts, ∀ u ∈ ts, t.2 ≠ u.1 :=
-  paths_output_not_input_c fs a ts hc hsp hd hs ht hin hout h
-
-theorem C19_paths_output_not_input_decompress (fs : FS) (a : Args) (ts : List (Str × Str))
-    (hc : a.decomp = true) (hsp : isSpecial a.out = false) (hd : DirInput fs a)
-    (hs : SpecOK a.inp ∨ isNonRec a.inp = true) (hk : KnzTree (fs.tree (rootOf a.inp)))
-    (hin : a.out = [] → NoShadow (fs.tree (rootOf a.inp)))
-    (hout : a.out ≠ [] → OutApart a (fs.tree (rootOf a.inp)))
-    (h : plan fs a = .tasks ts) : ∀ t ∈ ts, ∀ u ∈ ts, t.2 ≠ u.1 :=
-  paths_output_not_input_d fs a ts hc hsp hd hs hk hin hout h
-
-/-- With `-o <dir>` every output path is `<dir>/` followed by a relative path made of directory
-entry names (so no `..`, no empty or absolute component: nothing is written outside `<dir>`). -/
-theorem C19_paths_within_outdir (fs : FS) (a : Args) (ts : List (Str × Str))
-    (hc : a.decomp = false) (hsp : isSpecial a.out = false) (ho : a.out ≠ []) (hd : DirInput fs a)
-    (hs : SpecOK a.inp ∨ isNonRec a.inp = true) (ht : TreeOK (fs.tree (rootOf a.inp)))
-    (h : plan fs a = .tasks ts) : ∀ t ∈ ts, Under (foutOf a.out) t.2 :=
-  paths_within_outdir_c fs a ts hc hsp ho hd hs ht h
-
-theorem C19_paths_within_outdir_decompress (fs : FS) (a : Args) (ts : List (Str × Str))
-    (hc : a.decomp = true) (hsp : isSpecial a.out = false) (ho : a.out ≠ []) (hd : DirInput fs a)
-    (hs : SpecOK a.inp ∨ isNonRec a.inp = true) (hk : KnzTree (fs.tree (rootOf a.inp)))
-    (h : plan fs a = .tasks ts) : ∀ t ∈ ts, Under (foutOf a.out) t.2 :=
-  paths_within_outdir_d fs a ts hc hsp ho hd hs hk h
-
-/-- Name mapping: stripping undoes appending, for EVERY byte string (names that already end with
-`.knz`, several dots, no extension, any bytes). -/
-theorem C19_paths_roundtrip_names (p : Str) : dName (cName p) = p := dName_cName p
-
-/-- In place: the decompressor maps the name the compressor wrote back to the input name. -/
-theorem C19_paths_roundtrip_inplace (isDir sp : Bool) (fin i : Str) :
-    oName false isDir sp fin [] i = some (i ++ KNZ) ∧ oName true isDir sp fin [] (i ++ KNZ) = some i :=
-  paths_roundtrip_inplace isDir sp fin i
-
-/-- Tree `inT` compressed into directory `outC`, then directory `inC` (the same directory:
-`foutOf outC = finOf inC`) decompressed into `outD`: for every entry `rel` of the tree the
-decompressor finds its input under exactly the name the compressor wrote, and writes
-`outD/rel`: the relative path is preserved. -/
-theorem C19_paths_roundtrip (inT outC inC outD : Str) (rel : List Str) (hrel : rel ≠ [])
-    (hv : ∀ n ∈ rel, ValidName n) (hT : SpecOK inT) (hC : SpecOK inC)
-    (hsame : foutOf outC = finOf inC) (hoC : outC ≠ []) (hoD : outD ≠ []) :
-    ∃ init last, rel = init ++ [last] ∧
-      oName false true false (finOf inT) (foutOf outC) (walkPath (addSep inT) rel)
-        = some (walkPath (addSep inC) (init ++ [last ++ KNZ])) ∧
-      oName true true false (finOf inC) (foutOf outD) (walkPath (addSep inC) (init ++ [last ++ KNZ]))
-        = some (foutOf outD ++ joinSep rel) :=
-  paths_roundtrip inT outC inC outD rel hrel hv hT hC hsame hoC hoD
-
-/-- A regular file as input: one task, reading that file, writing `-o` when given, else the
-mapped name. -/
-theorem C19_paths_file (fs : FS) (a : Args) (ts : List (Str × Str)) (hf : FileInput fs a)
-    (h : plan fs a = .tasks ts) :
-    ∃ o, ts = [(targetOf a.inp, o)] ∧
-      oName a.decomp false (isSpecial a.out) [] a.out (targetOf a.inp) = some o :=
-  plan_file fs a ts hf h
-
-/-! ### the hypotheses are satisfiable, and what happens without them -/
+/-! ### the hypotheses are satisfiable; the repaired behaviour; the residual finding -/
 
 private def T : Str := [84]                       -- "T"
 private def dotT : Str := [46, 47, 84]            -- "./T"
+private def Tdot : Str := [84, 46]                -- "T."
 private def out : Str := [111, 117, 116]          -- "out"
 private def x : Str := [120]                      -- "x"
+private def a1 : Str := [97]                      -- "a"
 private def abcdef : Str := [97, 98, 99, 100, 101, 102]
 
 private def w1 : World :=
   { base := [[119]], cwd := [[119]],
-    ents := [⟨[T], .dir⟩, ⟨[T, abcdef], .file⟩, ⟨[T, x], .file⟩, ⟨[T, x ++ KNZ], .file⟩, ⟨[out], .dir⟩] }
+    ents := [⟨[T], .dir⟩, ⟨[T, abcdef], .file⟩, ⟨[T, a1], .file⟩, ⟨[out], .dir⟩] }
 
-example : SpecOK T ∧ SpecOK (T ++ [SEP]) ∧ SpecOK [SEP] ∧ ¬ SpecOK dotT ∧ ¬ SpecOK [DOT] ∧
-    ¬ SpecOK (T ++ [SEP, SEP]) := by decide
+/-- the tree {x, x.knz} -/
+private def w2 : World :=
+  { base := [[119]], cwd := [[119]],
+    ents := [⟨[T], .dir⟩, ⟨[T, x], .file⟩, ⟨[T, x ++ KNZ], .file⟩, ⟨[out], .dir⟩] }
 
-/-- all hypotheses of the theorems hold for this small world (run in place / with `-o out`) -/
-example : DirInput w1.fs ⟨false, T, out, false, false, false, false⟩ := ⟨⟨2, by decide⟩, ⟨2, by decide⟩⟩
-example : TreeOK (w1.fs.tree (rootOf T)) := by unfold TreeOK; decide
-example : OutApart ⟨false, T, out, false, false, false, false⟩ (w1.fs.tree (rootOf T)) := by
+/-- every spelling of a directory, also a last element ending with a dot (REPAIRED, P5) -/
+example : FinOK T ∧ FinOK (T ++ [SEP]) ∧ FinOK dotT ∧ FinOK [DOT] ∧ FinOK (T ++ [SEP, SEP]) ∧
+    FinOK (T ++ [SEP, DOT, DOT, SEP] ++ T) ∧ FinOK (T ++ [SEP, DOT]) ∧ FinOK [SEP] ∧
+    FinOK Tdot ∧ FinOK [DOT, DOT] ∧ FinOK (T ++ [SEP, DOT, DOT]) ∧ FinOK [SEP, DOT] := by decide
+
+example : DirInput w1.fs ⟨false, dotT, out, false, false, false, false⟩ := ⟨⟨2, by decide⟩, ⟨2, by decide⟩⟩
+example : TreeOK (w1.fs.tree (rootOf dotT)) := by unfold TreeOK; decide
+example : NoShadow (w1.fs.tree (rootOf dotT)) := by unfold NoShadow; decide
+example : OutApart ⟨false, dotT, out, false, false, false, false⟩ (w1.fs.tree (rootOf dotT)) := by
   unfold OutApart; decide
 example : KnzTree [([x, x ++ KNZ], Kind.file)] := by
   intro e he
@@ -171,32 +248,28 @@ example : KnzTree [([x, x ++ KNZ], Kind.file)] := by
   subst this
   exact ⟨[x], x, rfl, by decide, by decide⟩
 
-/-- canonical spelling, `-o out`: names preserved -/
-example : plan w1.fs ⟨false, T, out, false, false, false, false⟩ = .tasks
-    [(T ++ SEP :: abcdef, out ++ SEP :: abcdef ++ KNZ), (T ++ SEP :: x, out ++ SEP :: x ++ KNZ),
-     (T ++ SEP :: x ++ KNZ, out ++ SEP :: x ++ KNZ ++ KNZ)] := by decide
+/-- REPAIRED (P1): `-i ./T -o out` keeps the names, also the one-letter name -/
+example : plan w1.fs ⟨false, dotT, out, false, false, false, false⟩ = .tasks
+    [(T ++ SEP :: abcdef, out ++ SEP :: abcdef ++ KNZ), (T ++ SEP :: a1, out ++ SEP :: a1 ++ KNZ)] := by decide
 
-/-- FINDING (spelling): `-i ./T -o out`: `T/abcdef` is written to `out/cdef.knz`, and the
-one-letter name makes the slice `iName[len("./T/"):]` fault (real binary: exit status 127; with
-names that differ only in their first two bytes: two inputs, one output, exit status 0 with -f) -/
-example : plan { w1 with ents := [⟨[T], .dir⟩, ⟨[T, abcdef], .file⟩, ⟨[out], .dir⟩] }.fs
-      ⟨false, dotT, out, false, false, false, false⟩ =
-    .tasks [(T ++ SEP :: abcdef, out ++ SEP :: [99, 100, 101, 102] ++ KNZ)] := by decide
-example : plan w1.fs ⟨false, dotT, out, false, false, false, false⟩ = .fault := by decide
+/-- REPAIRED (P2): in place the tree {x, x.knz} is refused with status 7, with or without -f,
+because the output of x is the input x.knz; into another directory it is not -/
+example : plan w2.fs ⟨false, T, [], true, false, false, false⟩ = .err ERR_OVERWRITE_FILE := by decide
+example : planUnchecked w2.fs ⟨false, T, [], true, false, false, false⟩ = .tasks
+    [(T ++ SEP :: x, T ++ SEP :: x ++ KNZ), (T ++ SEP :: x ++ KNZ, T ++ SEP :: x ++ KNZ ++ KNZ)] := by decide
+example : plan w2.fs ⟨false, T, out, false, false, false, false⟩ = .tasks
+    [(T ++ SEP :: x, out ++ SEP :: x ++ KNZ), (T ++ SEP :: x ++ KNZ, out ++ SEP :: x ++ KNZ ++ KNZ)] := by decide
 
-/-- FINDING (output of one task = input of another): in place the tree {x, x.knz} gives the task
-x -> x.knz although x.knz is an input of the same run; `NoShadow` fails -/
-example : plan w1.fs ⟨false, T, [], true, false, false, false⟩ = .tasks
-    [(T ++ SEP :: abcdef, T ++ SEP :: abcdef ++ KNZ), (T ++ SEP :: x, T ++ SEP :: x ++ KNZ),
-     (T ++ SEP :: x ++ KNZ, T ++ SEP :: x ++ KNZ ++ KNZ)] := by decide
-example : ¬ NoShadow (w1.fs.tree (T ++ [SEP])) := by
-  intro h
-  exact h ([x], .file) (by decide) ([x ++ KNZ], .file) (by decide) (by decide)
+/-- REPAIRED (P3): decompression of {a.knz, a.KNZ}: both names give `a`; refused with status 7 -/
+example : plan { w2 with ents := [⟨[T], .dir⟩, ⟨[T, a1 ++ KNZ], .file⟩, ⟨[T, a1 ++ KNZU], .file⟩, ⟨[out], .dir⟩] }.fs
+    ⟨true, T, out, true, true, false, false⟩ = .err ERR_OVERWRITE_FILE := by decide
 
-/-- decompression without `KnzTree`: `a.knz` and `a.KNZ` are both written to `a`;
-`none.knz` in the working directory is "written" to the null output -/
-example : dName ([97] ++ KNZ) = [97] ∧ dName ([97] ++ KNZU) = [97] ∧
-    dName [97] = [97] ++ BAK ∧ dName ([97] ++ BAK ++ KNZ) = [97] ++ BAK := by decide
-example : isSpecial (dName ([110, 111, 110, 101] ++ KNZ)) = true := by decide
+/-- REPAIRED (P4): `none.knz` decompressed in place is written to `./none` -/
+example : oName true false false [] [] ([110, 111, 110, 101] ++ KNZ) = [DOT, SEP, 110, 111, 110, 101] := by decide
+
+/-- REPAIRED (P5): a directory called `T.` with `-o out` (before f45672a: `out/../T./abcdef.knz`) -/
+example : plan { w1 with ents := [⟨[Tdot], .dir⟩, ⟨[Tdot, abcdef], .file⟩, ⟨[out], .dir⟩] }.fs
+      ⟨false, Tdot, out, false, false, false, false⟩ =
+    .tasks [(Tdot ++ SEP :: abcdef, out ++ SEP :: abcdef ++ KNZ)] := by decide
 
 end Kanzi.C19
